@@ -1,7 +1,7 @@
 /-
   Helper lemmas for `Props/C04Decl.lean` / `Props/C03Decl.lean`: what folding decorators does to each metadata field
   (`Model/Expand.lean: applyDeco / decorate`), a topological numbering out of an accepted dependency graph
-  (`Model/Deps.lean`), and facts about the attribute lookup of `Model/Inject.lean`.
+  (`Model/Deps.lean`), and facts about the attribute lookup of `Model/SuiteObj.lean`.
 -/
 import LccModel.Lemmas.Expand
 import LccModel.Lemmas.Deps
@@ -158,54 +158,70 @@ theorem reachCount_lt {sched all : List T} (wf : WF sched all) (hs : AllSchedule
 
 end LccModel.Deps
 
-namespace LccModel.Inject
+namespace LccModel.SuiteObj
 open LccModel.Loader (orDefault)
 
-/-! ### the dict built by `_load_injected_fixtures` -/
+/-! ### the dict built by `_load_injected_fixtures` (`setdefault(k, []).append(v)`) -/
 
-theorem dictSet_keys (d : List (String × String)) (k v : String) :
-    (dictSet d k v).map (·.1) = if d.any (fun kv => kv.1 == k) then d.map (·.1) else d.map (·.1) ++ [k] := by
-  unfold dictSet
+theorem any_key_iff {β : Type} (d : List (String × β)) (k : String) : d.any (fun kv => kv.1 == k) = true ↔ k ∈ d.map (·.1) := by
+  simp only [List.any_eq_true, List.mem_map, beq_iff_eq]
+
+theorem dictAdd_keys (d : List (String × List String)) (k v : String) :
+    (dictAdd d k v).map (·.1) = if d.any (fun kv => kv.1 == k) then d.map (·.1) else d.map (·.1) ++ [k] := by
+  unfold dictAdd
   split
   · rw [List.map_map]
     apply List.map_congr_left
     intro kv _
-    show (if (kv.1 == k) = true then (k, v) else kv).1 = kv.1
-    split
-    · next h => exact (beq_iff_eq.mp h).symm
-    · rfl
+    show (if (kv.1 == k) = true then (kv.1, kv.2 ++ [v]) else kv).1 = kv.1
+    split <;> rfl
   · simp
 
-theorem any_key_iff (d : List (String × String)) (k : String) : d.any (fun kv => kv.1 == k) = true ↔ k ∈ d.map (·.1) := by
-  simp only [List.any_eq_true, List.mem_map, beq_iff_eq]
-
-theorem mem_dictSet {d : List (String × String)} {k v : String} {x : String × String} (h : x ∈ dictSet d k v) :
-    x ∈ d ∨ x = (k, v) := by
-  unfold dictSet at h
+/-- where an attribute of an entry of the extended dict comes from -/
+theorem mem_dictAdd {d : List (String × List String)} {k v f a : String} {as : List String}
+    (h : (f, as) ∈ dictAdd d k v) (ha : a ∈ as) : (∃ as', (f, as') ∈ d ∧ a ∈ as') ∨ (f = k ∧ a = v) := by
+  unfold dictAdd at h
   split at h
   · obtain ⟨kv, hkv, e⟩ := List.mem_map.mp h
-    by_cases hk : kv.1 == k
-    · simp [hk] at e; exact .inr e.symm
-    · simp [hk] at e; exact .inl (e ▸ hkv)
+    by_cases hk : (kv.1 == k) = true
+    · simp only [hk, if_true] at e
+      injection e with e1 e2
+      subst e1; subst e2
+      rcases List.mem_append.mp ha with ha | ha
+      · exact .inl ⟨kv.2, hkv, ha⟩
+      · exact .inr ⟨beq_iff_eq.mp hk, by simpa using ha⟩
+    · simp only [hk] at e
+      exact .inl ⟨as, e ▸ hkv, ha⟩
   · rcases List.mem_append.mp h with h | h
-    · exact .inl h
-    · exact .inr (by simpa using h)
+    · exact .inl ⟨as, h, ha⟩
+    · simp only [List.mem_singleton] at h
+      injection h with e1 e2
+      subst e2
+      exact .inr ⟨e1, by simpa using ha⟩
 
-theorem key_mem_dictSet (d : List (String × String)) (k v : String) : k ∈ (dictSet d k v).map (·.1) := by
-  rw [dictSet_keys]
+/-- the attribute just added is listed under its key -/
+theorem dictAdd_has (d : List (String × List String)) (k v : String) : ∃ as, (k, as) ∈ dictAdd d k v ∧ v ∈ as := by
+  unfold dictAdd
   split
-  · rename_i h; exact (any_key_iff d k).mp h
-  · simp
+  · rename_i h
+    obtain ⟨kv, hkv, hk⟩ := List.any_eq_true.mp h
+    refine ⟨kv.2 ++ [v], List.mem_map.mpr ⟨kv, hkv, ?_⟩, by simp⟩
+    simp only [hk, if_true]
+    rw [beq_iff_eq.mp hk]
+  · exact ⟨[v], by simp, by simp⟩
 
-theorem keys_subset_dictSet (d : List (String × String)) (k v : String) {x : String} (hx : x ∈ d.map (·.1)) :
-    x ∈ (dictSet d k v).map (·.1) := by
-  rw [dictSet_keys]
+/-- nothing already listed is lost -/
+theorem dictAdd_mono {d : List (String × List String)} (k v : String) {f a : String} {as : List String}
+    (h : (f, as) ∈ d) (ha : a ∈ as) : ∃ as', (f, as') ∈ dictAdd d k v ∧ a ∈ as' := by
+  unfold dictAdd
   split
-  · exact hx
-  · exact List.mem_append_left _ hx
+  · by_cases hk : (f == k) = true
+    · exact ⟨as ++ [v], List.mem_map.mpr ⟨(f, as), h, by simp [hk]⟩, List.mem_append_left _ ha⟩
+    · exact ⟨as, List.mem_map.mpr ⟨(f, as), h, by simp [hk]⟩, ha⟩
+  · exact ⟨as, List.mem_append_left _ h, ha⟩
 
-theorem dictSet_keys_nodup {d : List (String × String)} (k v : String) (h : (d.map (·.1)).Nodup) : ((dictSet d k v).map (·.1)).Nodup := by
-  rw [dictSet_keys]
+theorem dictAdd_keys_nodup {d : List (String × List String)} (k v : String) (h : (d.map (·.1)).Nodup) : ((dictAdd d k v).map (·.1)).Nodup := by
+  rw [dictAdd_keys]
   split
   · exact h
   · rename_i hk
@@ -213,55 +229,59 @@ theorem dictSet_keys_nodup {d : List (String × String)} (k v : String) (h : (d.
     exact List.nodup_append.mpr ⟨h, by simp, by
       intro a ha b hb; simp at hb; subst hb; intro e; subst e; exact this ha⟩
 
-theorem injectStep_keys_nodup {acc : List (String × String)} (av : String × AttrKind) (h : (acc.map (·.1)).Nodup) :
+theorem injectStep_keys_nodup {acc : List (String × List String)} (av : String × AttrKind) (h : (acc.map (·.1)).Nodup) :
     ((injectStep acc av).map (·.1)).Nodup := by
   unfold injectStep
   split
-  · exact dictSet_keys_nodup _ _ h
+  · exact dictAdd_keys_nodup _ _ h
   · exact h
 
-theorem injectStep_keys_mono {acc : List (String × String)} (av : String × AttrKind) {x : String} (hx : x ∈ acc.map (·.1)) :
-    x ∈ (injectStep acc av).map (·.1) := by
+theorem injectStep_mono {acc : List (String × List String)} (av : String × AttrKind) {f a : String} {as : List String}
+    (h : (f, as) ∈ acc) (ha : a ∈ as) : ∃ as', (f, as') ∈ injectStep acc av ∧ a ∈ as' := by
   unfold injectStep
   split
-  · exact keys_subset_dictSet _ _ _ hx
-  · exact hx
+  · exact dictAdd_mono _ _ h ha
+  · exact ⟨as, h, ha⟩
 
-theorem foldl_injectStep_nodup (l : List (String × AttrKind)) : ∀ acc : List (String × String), (acc.map (·.1)).Nodup →
+theorem foldl_injectStep_nodup (l : List (String × AttrKind)) : ∀ acc : List (String × List String), (acc.map (·.1)).Nodup →
     ((l.foldl injectStep acc).map (·.1)).Nodup := by
   induction l with
   | nil => intro acc h; exact h
   | cons a rest ih => intro acc h; exact ih _ (injectStep_keys_nodup a h)
 
-theorem foldl_injectStep_mono (l : List (String × AttrKind)) : ∀ (acc : List (String × String)) {x : String}, x ∈ acc.map (·.1) →
-    x ∈ (l.foldl injectStep acc).map (·.1) := by
+theorem foldl_injectStep_mono (l : List (String × AttrKind)) : ∀ (acc : List (String × List String)) {f a : String} {as : List String},
+    (f, as) ∈ acc → a ∈ as → ∃ as', (f, as') ∈ l.foldl injectStep acc ∧ a ∈ as' := by
   induction l with
-  | nil => intro acc x h; exact h
-  | cons a rest ih => intro acc x h; exact ih _ (injectStep_keys_mono a h)
+  | nil => intro acc f a as h ha; exact ⟨as, h, ha⟩
+  | cons b rest ih =>
+    intro acc f a as h ha
+    obtain ⟨as', h', ha'⟩ := injectStep_mono b h ha
+    exact ih _ h' ha'
 
-/-- every entry of the result comes from a marker met by the loop -/
-theorem foldl_injectStep_mem (l : List (String × AttrKind)) : ∀ (acc : List (String × String)) {x : String × String},
-    x ∈ l.foldl injectStep acc → x ∈ acc ∨ ∃ n, (x.2, AttrKind.inject n) ∈ l ∧ x.1 = orDefault n x.2 := by
+/-- every attribute listed in the result comes from a marker met by the loop -/
+theorem foldl_injectStep_mem (l : List (String × AttrKind)) : ∀ (acc : List (String × List String)) {f a : String} {as : List String},
+    (f, as) ∈ l.foldl injectStep acc → a ∈ as →
+      (∃ as', (f, as') ∈ acc ∧ a ∈ as') ∨ ∃ n, (a, AttrKind.inject n) ∈ l ∧ f = orDefault n a := by
   induction l with
-  | nil => intro acc x h; exact .inl h
-  | cons a rest ih =>
-    intro acc x h
-    rcases ih _ h with h | ⟨n, hn, e⟩
-    · unfold injectStep at h
-      split at h
+  | nil => intro acc f a as h ha; exact .inl ⟨as, h, ha⟩
+  | cons b rest ih =>
+    intro acc f a as h ha
+    rcases ih _ h ha with ⟨as', h', ha'⟩ | ⟨n, hn, e⟩
+    · unfold injectStep at h'
+      split at h'
       · rename_i n hk
-        rcases mem_dictSet h with h | h
-        · exact .inl h
-        · refine .inr ⟨n, ?_, by rw [h]⟩
-          rw [h]; simp only
-          have : a = (a.1, a.2) := rfl
-          rw [hk] at this; rw [← this]; exact List.mem_cons_self ..
-      · exact .inl h
+        rcases mem_dictAdd h' ha' with h'' | ⟨e1, e2⟩
+        · exact .inl h''
+        · have hb : b = (a, AttrKind.inject n) := by
+            have : b = (b.1, b.2) := rfl
+            rw [hk, ← e2] at this; exact this
+          refine .inr ⟨n, by rw [hb]; exact List.mem_cons_self .., by rw [e1, e2]⟩
+      · exact .inl ⟨as', h', ha'⟩
     · exact .inr ⟨n, List.mem_cons_of_mem _ hn, e⟩
 
-/-- every marker met by the loop leaves its fixture name in the result -/
-theorem foldl_injectStep_key (l : List (String × AttrKind)) : ∀ (acc : List (String × String)) (a : String) (n : Option String),
-    (a, AttrKind.inject n) ∈ l → orDefault n a ∈ (l.foldl injectStep acc).map (·.1) := by
+/-- every marker met by the loop is listed under its fixture name -/
+theorem foldl_injectStep_has (l : List (String × AttrKind)) : ∀ (acc : List (String × List String)) (a : String) (n : Option String),
+    (a, AttrKind.inject n) ∈ l → ∃ as, (orDefault n a, as) ∈ l.foldl injectStep acc ∧ a ∈ as := by
   induction l with
   | nil => intro acc a n h; cases h
   | cons b rest ih =>
@@ -269,9 +289,8 @@ theorem foldl_injectStep_key (l : List (String × AttrKind)) : ∀ (acc : List (
     rcases List.mem_cons.mp h with e | h
     · subst e
       rw [List.foldl_cons]
-      apply foldl_injectStep_mono
-      show orDefault n a ∈ (dictSet acc (orDefault n a) a).map (·.1)
-      exact key_mem_dictSet _ _ _
+      obtain ⟨as, h1, h2⟩ : ∃ as, (orDefault n a, as) ∈ injectStep acc (a, .inject n) ∧ a ∈ as := dictAdd_has acc (orDefault n a) a
+      exact foldl_injectStep_mono rest _ h1 h2
     · exact ih _ a n h
 
 theorem mem_attributes {o : Obj} {a : String} {k : AttrKind} :
@@ -302,7 +321,7 @@ theorem attributes_congr {o o' : Obj} (hd : dirNames o = dirNames o') (hl : ∀ 
     rw [hp a, hl a]
   rw [this]
 
-end LccModel.Inject
+end LccModel.SuiteObj
 
 namespace LccModel.Run
 
